@@ -99,6 +99,22 @@ def gcirc_body(case):
     else:
         got = np.asarray(call(gcirc, a[:, 0], a[:, 1], a[:, 2], a[:, 3], units=units))
         rev = np.asarray(call(gcirc, a[:, 2], a[:, 3], a[:, 0], a[:, 1], units=units))
+    if units in (1, 2) and not case['scalar']:
+        # catalogue columns of whole degrees / hours held in integer arrays (unsigned RA, signed Dec)
+        ai = np.round(a)
+        ai[:, 0] %= (24 if units == 1 else 360)          # unsigned columns hold RA in [0, 24) h / [0, 360) deg
+        ai[:, 2] %= (24 if units == 1 else 360)
+        ai[:, 1] = np.clip(ai[:, 1], -90, 90)
+        ai[:, 3] = np.clip(ai[:, 3], -90, 90)
+        gi = np.asarray(call(gcirc, ai[:, 0].astype('u4'), ai[:, 1].astype('i4'), ai[:, 2].astype('u4'), ai[:, 3].astype('i4'), units=units), dtype='f8')
+        ri = ai.astype(LD) * (PI_LD / 180)
+        if units == 1:
+            ri[:, 0] *= 15
+            ri[:, 2] *= 15
+        refi = vincenty_ld(ri[:, 0], ri[:, 1], ri[:, 2], ri[:, 3]) * (180 / PI_LD) * 3600
+        with judge('gcirc-integer-arrays'):
+            check(bool(np.all(np.abs(gi.astype(LD) - refi) <= 1e-6 * refi + floor)), 'gcirc:integer-arrays-wrong-distance',
+                  lambda: dict(units=units, got=gi.tolist(), want=[float(v) for v in refi]))
     if case.get('broadcast') and len(a) > 1:
         # one reference point (scalars) against a vector of points, and a column against a row: ordinary NumPy broadcasting
         one = np.asarray(call(gcirc, float(a[0, 0]), float(a[0, 1]), a[:, 2], a[:, 3], units=units))
